@@ -324,7 +324,17 @@ func c07Chain(rec *mon.Recorder, rng *rand.Rand, seed int64, nCand int) {
 			chainName = "otherchain"
 			bcase = "other-chain"
 		}
-		hdr := mk(s, H, hdrTime, signers, chainID, vals)
+		// now and then a second, equally well signed block for the height (another app hash): if accepted, it is
+		// the one that has to be stored, also where a state for that height exists already
+		appHash := s.app[H]
+		if rng.Intn(8) == 0 {
+			appHash = make([]byte, 32)
+			rng.Read(appHash)
+			if _, has := mc.Stored[model.TMKey{Rev: hrev, Height: H}]; has {
+				rec.Count("second-block-for-stored-height", 1)
+			}
+		}
+		hdr := vnet.MakeTMHeader(chainID, int64(H), hdrTime, appHash, vals, s.vals[H+1], s.signers, signers)
 		hdr.TrustedHeight = clienttypes.NewHeight(tk.Rev, th)
 		ts := chains[tk.Rev]
 		if ts == nil {
@@ -412,7 +422,7 @@ func c07Chain(rec *mon.Recorder, rng *rand.Rand, seed int64, nCand int) {
 			wantLatest = hk
 		}
 		gl := ncs.GetLatestHeight()
-		if !ok || tcs == nil || !tcs.Timestamp.Equal(hdrTime) || !bytes.Equal(tcs.Root.Hash, s.app[H]) || !bytes.Equal(tcs.NextValidatorsHash, s.vals[H+1].Hash()) ||
+		if !ok || tcs == nil || !tcs.Timestamp.Equal(hdrTime) || !bytes.Equal(tcs.Root.Hash, appHash) || !bytes.Equal(tcs.NextValidatorsHash, s.vals[H+1].Hash()) ||
 			gl.GetRevisionHeight() != wantLatest.Height || gl.GetRevisionNumber() != wantLatest.Rev {
 			rec.Violate("accepted-header-stored-wrongly", nil, fmt.Sprintf("height %d-%d: stored %+v latest %s (want %d-%d)", hk.Rev, H, tcs, gl, wantLatest.Rev, wantLatest.Height), nil)
 			continue
